@@ -1,6 +1,7 @@
 import SamplyModel.Lemmas.LifeStep
 import SamplyModel.Lemmas.ConvSplit
 import SamplyModel.Props.C01
+import SamplyModel.Lemmas.ProfileIdString
 /-!
 # C17 — process / thread names and lifetimes follow COMM, EXEC, FORK and EXIT
 
@@ -409,3 +410,40 @@ example : Life.grammarOk 1000 [.comm 100 100 "app" false 800, .sample 100 100 10
       .comm 100 100 "new" true 1500, .sample 100 100 2000 false 1 0x10 []])).map
         (fun v => (v.pid, v.tid, v.samples.map (·.t))) = [("100", "100", [0]), ("100.1", "100.1", [1000])] := by
   decide
+
+
+/-! ### The entry names are injective: different incarnations are different entries of the profile -/
+
+/-- `make_unique_pid_or_tid` (profile.rs:308-320) as rendered by `idStr` — `"<id>"` for suffix 0,
+`"<id>.<suffix>"` otherwise — is injective in the pair: two incarnations are reported under the same pid (tid)
+string only if they have the same number and the same suffix. (Digits never contain `'.'`; proved on the
+character lists in `Lemmas/ProfileIdString.lean`.) -/
+theorem C17_idStr_injective (a s b t : Nat) (h : idStr a s = idStr b t) : a = b ∧ s = t := by
+  have h' : PT.idString (a, s) = PT.idString (b, t) := h
+  have := PT.idString_injective h'
+  exact ⟨congrArg Prod.fst this, congrArg Prod.snd this⟩
+
+/-- **EXEC splits the samples, on the strings of the output.** Same history as `C17_exec_splits_samples`: the pid
+*string* of the entry that carries a sample of `pid` taken before the EXEC differs from the pid string of the
+entry that carries any sample of `pid` taken after it, and (the `Perm` of `C17_exec_splits_samples`) these
+strings are the `pid` fields of the thread entries of `views (run cfg …)` that hold the samples. -/
+theorem C17_exec_splits_pid_strings (cfg : Config) (pre post : List Rec) (pid : Nat) (name : String) (t : Nat)
+    (hr : cfg.reuse = false)
+    (hg : Life.grammarOk cfg.ref (pre ++ .comm pid pid name true t :: post) = true) :
+    ∃ later, acceptedInc cfg.ref (pre ++ .comm pid pid name true t :: post) = acceptedInc cfg.ref pre ++ later ∧
+      (∀ a ∈ acceptedInc cfg.ref pre, ∀ b ∈ later, a.pid = pid → b.pid = pid →
+        idStr a.pid a.psuffix ≠ idStr b.pid b.psuffix) ∧
+      List.Perm
+        ((views (run cfg (pre ++ .comm pid pid name true t :: post))).flatMap
+          (fun v => (C01_recorded v).map (fun o => (v.pid, v.tid, o.t, o.weight))))
+        ((acceptedInc cfg.ref pre ++ later).map
+          (fun a => (idStr a.pid a.psuffix, idStr a.tid a.tsuffix, a.t - cfg.ref, 1))) := by
+  obtain ⟨later, h1, h2, h3⟩ := C17_exec_splits_samples cfg pre post pid name t hr hg
+  refine ⟨later, h1, ?_, h3⟩
+  intro a ha b hb hap hbp heq
+  have := (C17_idStr_injective _ _ _ _ heq).2
+  have := h2 a ha b hb hap hbp
+  omega
+
+/-- non-vacuity / sanity: the strings of the example above are different, and `idStr` separates `1.23` from `12.3` -/
+example : idStr 100 0 = "100" ∧ idStr 100 1 = "100.1" ∧ idStr 1 23 ≠ idStr 12 3 := by decide
